@@ -53,6 +53,12 @@ where
     #[error("attempted to add group {0} with manage access")]
     ManagerGroupsNotAllowed(ID),
 
+    #[error("group {0} does not exist at the dependencies of operation {1}")]
+    UnknownGroup(ID, OP),
+
+    #[error("operation {0} depends on unknown operation {1}")]
+    MissingDependency(OP, OP),
+
     #[error("resolver error: {0}")]
     Resolver(RS::Error),
 }
@@ -567,6 +573,19 @@ where
             ));
         }
 
+        // Operations need to be processed in partial order, all dependencies have to be known.
+        // Operations come from remote peers, reject instead of crashing.
+        if let Some(dependency) = operation
+            .dependencies()
+            .into_iter()
+            .find(|dependency| !y.inner.operations.contains_key(dependency))
+        {
+            return Err(GroupCrdtError::MissingDependency(
+                operation.id(),
+                dependency,
+            ));
+        }
+
         // Adding a group as a manager of another group is currently not
         // supported.
         //
@@ -637,6 +656,21 @@ where
             return Err(GroupCrdtError::GroupCycle(
                 parent_group,
                 sub_group.id(),
+                operation.id(),
+            ));
+        }
+
+        // Every action except of "create" needs the group to exist at the point in history the
+        // operation claims as its dependencies. Operations come from remote peers, reject instead
+        // of crashing.
+        if !operation.action().is_create()
+            && !temp_y
+                .inner
+                .current_state()
+                .contains_key(&operation.group_id())
+        {
+            return Err(GroupCrdtError::UnknownGroup(
+                operation.group_id(),
                 operation.id(),
             ));
         }
